@@ -158,6 +158,10 @@ def cases(draw, tier):
                         ctl[-1]['inv'] = True
                 elif r < 8:
                     ctl.append({'op': 'tset', 'i': draw(st.integers(0, ntr - 1)), 'v': draw(st.integers(0, 3))})
+                elif r < 9 and draw(st.booleans()):
+                    # absolute levels (one or both kinds; the other one keeps its level)
+                    ctl.append({'op': 'rset', 'r': 'R', 'amounts': draw(st.sampled_from([
+                        {'a': 0}, {'a': 1}, {'a': 3}, {'b': 0}, {'b': 2}, {'a': 2, 'b': 2}, {'a': 0, 'b': 4}, {'a': 4, 'b': 0}]))})
                 elif r < 9:
                     ctl.append({'op': 'increase', 'r': 'R', 'amounts': {draw(st.sampled_from(['a', 'b'])): draw(st.integers(0, 2))}})
                 else:
@@ -221,6 +225,8 @@ def reuse_cases(draw):
     else:
         cond = ['rcmp', 'R', '>=', {'a': 2}]
         on, off = [{'op': 'increase', 'r': 'R', 'amounts': {'a': 2}}], [{'op': 'decrease', 'r': 'R', 'amounts': {'a': 2}}]
+        if draw(st.booleans()):
+            on, off = [{'op': 'rset', 'r': 'R', 'amounts': {'a': draw(st.integers(2, 4))}}], [{'op': 'rset', 'r': 'R', 'amounts': {'a': draw(st.integers(0, 1))}}]
     exprs = [cond]
     times = sorted(draw(st.lists(st.sampled_from([1, 2, 3, 4, 5, 6, 7]), min_size=3, max_size=5, unique=True)))
     ctl = [{'op': 'bools', 'exprs': exprs}]
@@ -324,6 +330,9 @@ class C08(Check):
             elif e[3] == 'decrease_begin':
                 for f, v in e[5][0].items():
                     state['r'][f] -= v
+            elif e[3] == 'rset_begin':
+                for f, v in e[5][0].items():
+                    state['r'][f] = v
             else:
                 continue
             snap(e[0])
